@@ -235,7 +235,18 @@ pub fn run(ctx: &Ctx) -> i32 {
         budget: Duration::from_secs(ctx.tier.pick(90, 900)),
         only: ctx.only,
     };
-    let mut summary = runner::run_scenarios(&cfg, scenario);
+    let n_pure = 4usize;
+    let n_direct = ctx.tier.pick(8, 64);
+    let pure_n = ctx.tier.pick(20_000, 500_000);
+    let mut summary = runner::run_scenarios(&cfg, move |i, s| {
+        if i < n_pure {
+            super::direct::c05_pure(i, s, pure_n)
+        } else if i < n_pure + n_direct {
+            super::direct::c05_direct(i, s)
+        } else {
+            scenario(i, s)
+        }
+    });
     // cross-scenario determinism: the survivor may depend only on identities and directions
     let g = summary.counters.get("survivor_dialed-by-greater").copied().unwrap_or(0);
     let l = summary.counters.get("survivor_dialed-by-lesser").copied().unwrap_or(0);
@@ -252,7 +263,7 @@ pub fn run(ctx: &Ctx) -> i32 {
         tier: ctx.tier,
         seed: ctx.seed,
         level: "exploration",
-        rule: "scenario = two real Networks on the simulated fabric dialing each other with a seeded start offset in [-3RTT,3RTT], per-direction random latency, optional loss/dup; non-trivial = both dials completed; distinct by (id order, per-side NewPeer/LostPeer sequence, which dial survived)".into(),
+        rule: "three kinds. (1) pure decision: the real tie-break function on random and structured identity pairs for all origin pairs; both sides and both arrival orders must keep the same dial, equal to 'dialed by the greater PeerId'. (2) direct drive: two bare endpoints, two real connections (one dialed each way), a stand-alone active-peer set per side; ALL 24 orders of the four registrations, followed by the late handler exits of the replaced connections in both orders; each side ends with one entry for the same physical connection, survivor open, loser closed, events N or NLN. (3) scenario = two real Networks on the simulated fabric dialing each other with a seeded start offset in [-3RTT,3RTT], per-direction random latency, optional loss/dup; non-trivial = both dials completed; distinct by (id order, per-side NewPeer/LostPeer sequence, which dial survived)".into(),
         assumptions: vec![
             "QUIC/TLS run on tokio's virtual clock over an in-memory datagram fabric (socket hook)".into(),
             "interleavings are those produced by seeded latencies/offsets, not an enumeration".into(),
@@ -261,6 +272,6 @@ pub fn run(ctx: &Ctx) -> i32 {
         extra: Default::default(),
         exhaustive: None,
         min_signatures: 4,
-        required_counters: vec!["mutual_dials_completed"],
+        required_counters: vec!["mutual_dials_completed", "pure_decisions_checked", "direct_registration_orders"],
     })
 }
